@@ -335,6 +335,12 @@ func (s *StreamJoin) receiveRecord(ctx ExecutionContext, produce ProduceFn, myRe
 		}
 		key[i] = value
 	}
+	for i := range key {
+		if key[i].TypeID == octosql.TypeIDNull {
+			// An equality never matches a NULL key, so this record joins with nothing.
+			return nil
+		}
+	}
 
 	if !oneStreamRemains {
 		// Update count in my record tree
